@@ -84,10 +84,6 @@ class Enum(type):
         Property to return a list of Keys in the Enum.
         """
         result: List[str] = [
-            key
-            for key, val in vars(cls).items()
-            if not callable(val)
-            and not key.startswith("__")
-            or not type(val).__name__ != "method"
+            key for key, val in vars(cls).items() if not key.startswith("__")
         ]
         return result
